@@ -8,7 +8,9 @@ from __future__ import annotations
 import sys
 from fractions import Fraction
 
-sys.path.insert(0, "/repo")
+import os as _os
+REPO = _os.environ.get("VERIF_REPO", "/repo")  # scratch worktree for seeded-change runs; registered checks use /repo
+sys.path.insert(0, REPO)
 
 from src.alignment.alignment_position import (AlignedPair, NotAlignedQueryPosition,  # noqa: E402
                                               NotAlignedReferencePosition, ScoredAlignedPair,
